@@ -240,6 +240,44 @@ def rule_staging(fx, rep):
             if c.get('name') in ('recommended_wnaf_for_num_scalars', 'recommended_wnaf_for_scalar'):
                 fr.storev(t['dest'], ('rec', c['name'], fr.operand(args[0])))
                 return True
+            # ---- the buffer invariant (it is empty or a table built by wnaf_table: established by these very rules, by
+            # induction over the methods) lets a method look at what the buffer holds: a table has 2^(w-1) entries and
+            # starts with its base, coordinate for coordinate
+            if c.get('name') in ('len', 'is_empty') and len(args) == 1:
+                v_ = deep(fr, fr.operand(args[0]))
+                if isinstance(v_, tuple) and len(v_) == 3 and v_[0] == 'table':
+                    fr.storev(t['dest'], ('tlen', v_[2]) if c['name'] == 'len' else Int(0, 1))
+                    return True
+                if isinstance(v_, Agg) and not v_.items:
+                    fr.storev(t['dest'], Int(0) if c['name'] == 'len' else Int(1, 1))
+                    return True
+            if c.get('name') in ('index', 'first', 'get') and len(args) >= 1:
+                v_ = deep(fr, fr.operand(args[0]))
+                ix_ = fr.operand(args[1]) if len(args) > 1 else Int(0)
+                if isinstance(v_, tuple) and len(v_) == 3 and v_[0] == 'table' and isinstance(ix_, Int) and ix_.v == 0:
+                    e0 = ('entry0', v_[1])
+                    fr.storev(t['dest'], e0 if c['name'] == 'index' else exp.Opt('some', e0))
+                    return True
+            if c.get('name') == 'as_tuple' and c.get('trait') in ('CurveProjective', 'CurveAffine') and len(args) == 1:
+                v_ = deep(fr, fr.operand(args[0]))
+                if v_ is TOP:
+                    v_ = fr.deref_operand(args[0])
+                if isinstance(v_, (str, tuple)):
+                    fr.storev(t['dest'], ('coords', v_[1] if isinstance(v_, tuple) and v_ and v_[0] == 'entry0' else v_))
+                    return True
+            if c.get('trait') == 'std::cmp::PartialEq' and c.get('name') in ('eq', 'ne') and len(args) == 2:
+                a_, b_ = deep(fr, fr.deref_operand(args[0])), deep(fr, fr.deref_operand(args[1]))
+                both_coords = all(isinstance(x_, tuple) and len(x_) == 2 and x_[0] == 'coords' for x_ in (a_, b_))
+                both_points = all(isinstance(x_, str) or (isinstance(x_, tuple) and x_ and x_[0] == 'entry0') for x_ in (a_, b_))
+                if both_coords:
+                    key = ('same-coords',) + tuple(sorted([repr(a_[1]), repr(b_[1])]))
+                    fr.storev(t['dest'], ('bool', key if c['name'] == 'eq' else ('not', key)))
+                    return True
+                if both_points:
+                    # equality as points does not determine the table (it is built from the coordinates)
+                    key = ('same-point',) + tuple(sorted([repr(a_), repr(b_)]))
+                    fr.storev(t['dest'], ('bool', key if c['name'] == 'eq' else ('not', key)))
+                    return True
             if c.get('name') in ('index', 'index_mut', 'deref', 'deref_mut', 'as_slice', 'as_mut_slice') and 'std::vec::Vec' in r_:
                 # a full view of one of the context's buffers is that buffer
                 import stdmodel
@@ -265,23 +303,73 @@ def rule_staging(fx, rep):
             import stdmodel
             rp = stdmodel.ref_of(fr, op)
             return where_ref(Ref(rp[0], rp[1])) if rp is not None else None
-        items = [None, None, None]
-        items[BASE], items[SCALAR], items[WIN] = 'OLD_TABLE', 'OLD_DIGITS', ('stored-window',)
-        ctx = Agg(items, ('wnaf::Wnaf', 'Wnaf'))
-        I = exp.Interp(fx, 'none', extra_transfer=tr)
-        args = [('byref', ctx)] + (['ARG', 'N'] if (staged_first and nm == 'base') else (['ARG'] if nm != 'shared' else []))
-        try:
-            res = I.run(p, args)
-        except (exp.NotDerivable, exp.Budget) as e:
-            rep.fail('WIRE', 'Wnaf::%s' % nm, 'not derivable: %s' % e, where, construct=p)
+        def wbin(op, a_, b_):
+            # sizes of tables as functions of the window: 1 << (w - 1)
+            if b_ is None:
+                return None
+            if op in ('Sub', 'SubUnchecked', 'SubWithOverflow') and isinstance(a_, tuple) and a_ and a_[0] in ('rec', 'stored-window') and isinstance(b_, Int) and b_.v == 1:
+                r_ = ('dec', a_)
+                return Agg([r_, Int(0, 1)]) if op == 'SubWithOverflow' else r_
+            if op in ('Shl', 'ShlUnchecked') and isinstance(a_, Int) and a_.v == 1 and isinstance(b_, tuple) and b_ and b_[0] == 'dec':
+                return ('tlen', b_[1])
+            if op in ('Eq', 'Ne'):
+                ta = a_[1] if isinstance(a_, tuple) and a_ and a_[0] == 'tlen' else None
+                tb = b_[1] if isinstance(b_, tuple) and b_ and b_[0] == 'tlen' else None
+                if ta is not None and tb is not None:
+                    if ta == tb:
+                        return Int(1 if op == 'Eq' else 0, 1)
+                    key = ('same-window',) + tuple(sorted([repr(ta), repr(tb)]))
+                    return ('bool', key if op == 'Eq' else ('not', key))
+                if (ta is not None and isinstance(b_, Int) and b_.v == 0) or (tb is not None and isinstance(a_, Int) and a_.v == 0):
+                    return Int(0 if op == 'Eq' else 1, 1)       # a table is never empty
+            if op in ('Lt', 'Le', 'Gt', 'Ge') and (isinstance(a_, tuple) and a_ and a_[0] in ('tlen', 'dec', 'rec') or isinstance(b_, tuple) and b_ and b_[0] in ('tlen', 'dec', 'rec')):
+                return None
+            return None
+        # entry worlds of the table buffer: for stage-1 base the invariant worlds (empty; a table of some base and some
+        # window), so that a method may inspect the buffer; junk for everything else
+        if staged_first and nm == 'base':
+            worlds = [('empty', Agg([], ('vec', 'Vec'))), ('table', ('table', 'B0', ('stored-window', 'W0')))]
+        else:
+            worlds = [('junk', 'OLD_TABLE')]
+        res = []
+        failed = False
+        for wname, old_table in worlds:
+            items = [None, None, None]
+            items[BASE], items[SCALAR], items[WIN] = old_table, 'OLD_DIGITS', ('stored-window',)
+            ctx = Agg(items, ('wnaf::Wnaf', 'Wnaf'))
+            I = exp.Interp(fx, 'none', extra_transfer=tr)
+            I.binop_hook = wbin
+            args = [('byref', ctx)] + (['ARG', 'N'] if (staged_first and nm == 'base') else (['ARG'] if nm != 'shared' else []))
+            try:
+                res_w = I.run(p, args)
+            except (exp.NotDerivable, exp.Budget) as e:
+                rep.fail('WIRE', 'Wnaf::%s' % nm, 'not derivable: %s' % e, where, construct=p)
+                failed = True
+                break
+            rep.sites(I.call_sites)
+            res += [(r_[0], r_[1], r_[2], wname, old_table) for r_ in res_w if not (isinstance(r_[1], tuple) and r_[1] and r_[1][0] == 'diverges')]
+        if failed:
             continue
-        rep.sites(I.call_sites)
-        res = [r for r in res if not (isinstance(r[1], tuple) and r[1] and r[1][0] == 'diverges')]
         bad = []
-        if len(res) != 1:
+        if len(res) != len(worlds) and not (staged_first and nm == 'base'):
             bad.append('%d paths' % len(res))
-        for pth, ret, outs in res:
+        import tt as TT_
+        for pth, ret, outs, wname, old_table in res:
             selfv = outs.get(1)
+            if staged_first and nm == 'base' and isinstance(selfv, Agg) and selfv.items[BASE] == old_table and wname == 'table':
+                # the buffer was left as found: it is the required table when the path established that its length is
+                # that of a table for the window used and that its first entry has the coordinates of the argument
+                lits = dict((k_, t_) for k_, t_, _l in TT_.path_literals(pth))
+                rec_ = ('rec', 'recommended_wnaf_for_num_scalars', 'N')
+                kw = ('same-window',) + tuple(sorted([repr(old_table[2]), repr(rec_)]))
+                kc = ('same-coords',) + tuple(sorted([repr('B0'), repr('ARG')]))
+                if lits.get(kw) is True and lits.get(kc) is True:
+                    selfv = Agg([(('table', 'ARG', rec_) if i_ == BASE else x_) for i_, x_ in enumerate(selfv.items)], selfv.kind)
+                    if isinstance(ret, Agg) and len(ret.items) == 3:
+                        pass
+            if nm == 'scalar' and not (isinstance(selfv, Agg) and selfv.items[BASE] == old_table):
+                # (part of the induction behind the buffer invariant: only the base methods touch the table buffer)
+                bad.append('scalar() changes the table buffer (it holds %r afterwards)' % (selfv.items[BASE] if isinstance(selfv, Agg) else selfv,))
             if nm == 'shared':
                 ok = isinstance(ret, Agg) and len(ret.items) == 3 and deep_eq(ret.items[WIN], ('stored-window',))
                 if not ok:
